@@ -41,7 +41,7 @@ VI_ODD = ['\x1b', ':\x1b', '/\x1b', '?\x1b', '!\x1b', 'd\x1b', 'c\x1b', '"\x1b',
           '99999999999G', '0', '00', '1G0i\x1b', 'Gdd', 'ggdG', ':%d\n', 'dGu', 'dGp', 'dGP', 'dGi\x1b', 'dGo\x1b', 'dGJ', 'dGx', 'dGr', 'dG~', 'dG.', 'dG>>', 'dG!!cat\n', 'dG:s/a/b/\n', 'dG:1\n', 'dG\x07', 'dG\x01',
           'i\x12a\x1b', 'i\x12\x1b', 'i\x10\x1b', 'i\x01\x1b', 'i\x01\x01\x1b', 'i\x0bo/\x1b', 'i\x0b\x0b\x1b', 'i\x0b\x1b', 'i\x16\x1b\x1b', 'i\x06abc\x05abc\x1b', 'i\x14\x14\x14\x04\x04\x04\x04x\x1b', 'i' + '\x14' * 140 + 'x\x1b',
           'o\x04\x04x\x1b', 'A\x17\x17\x17\x1b', 'A\x15\x1b', 'A\x08\x08\x08\x1b', ':\x01\n', '/\x01\n', ':se hist=5\n:ec a\n:ec b\n:\x01\n', ':' + 'x' * 600 + '\n', '/' + 'a' * 600 + '\n', ':s/' + 'a' * 505 + '/b/\n',
-          ':ec ' + 'é' * 300 + '\n', 'i' + 'é' * 300 + '\x1b0', '500ix\x1b', '900.', '"ayy400@a', '3J99J', '99x', '99X', '99~', '99r.', '99p', '99P', '5|99|', '99%', '50%', '101%', '0%', '%',
+          ':ec ' + 'é' * 300 + '\n', 'i' + 'é' * 300 + '\x1b0', '500ix\x1b', '60.', '"ayy40@a', '3J99J', '99x', '99X', '99~', '99r.', '99p', '99P', '5|99|', '99%', '50%', '101%', '0%', '%',
           '\x06\x06\x06\x02\x02\x02\x04\x15\x05\x19', 'H', 'L', 'M', '99H', '99L', 'z99\n', '99z.', '99z-', '\x0c', '\x0c\x0c', 'K', 'U', 'R\x1b', 'v', 'V', '&', '#', '=', '\\', '_', '-', '+', '\x7f', '\x08', ' ']
 
 
